@@ -264,6 +264,7 @@ func plantInRPC(t *rapid.T, set *ymodel.Set) bool {
 func gen(t *rapid.T) Case {
 	o := ymodel.DefaultOpts()
 	set, _ := schema.Generate(t, o)
+	schema.AddAugments(t, set, 0, 4)
 	c := Case{Set: set}
 	if rapid.IntRange(0, 7).Draw(t, "plant-in-rpc") == 0 && plantInRPC(t, set) {
 		c.Late = "unknown-type-below-rpc-input-output"
